@@ -18,7 +18,9 @@ LEVEL_TEXT = ("A freshly booted library per world (the z-index allocator and the
               "are process-global), terminal identity kitty / konsole / other, support detection "
               "through the real query path. A seeded history of <= 25 operations (create / drop + "
               "collect image widgets, change layout among pile / columns / overlay / list box / "
-              "frame / bare top-level widget, scroll, move the overlay, resize, draw_screen, "
+              "frame / bare top-level widget / grid of equal-width cells (a quarter of the worlds "
+              "are grids only, rows re-divided between redraws), return to an earlier layout, a "
+              "redraw interrupted by Ctrl-C that the application survives, scroll, move the overlay, resize, draw_screen, "
               "clear, clear_images(widgets, now), stop / start) drives a real UrwidImageScreen "
               "whose bytes are interpreted by the terminal model. After every redraw the graphics "
               "placements (cell rectangle, z-index, payload digest), image cells and text grid of "
@@ -44,7 +46,7 @@ PROBES = ["image_moved_between_redraws", "image_disappeared", "bare_non_composit
           "stop_start_cycle", "clear_images_now", "konsole_iterm2_image", "resize",
           "ghost_free_redraws", "returned_to_earlier_layout",
           "kitty_style_by_forced_support", "grid_row_redivided",
-          "kitty_widget_spec_with_z_index_field"]
+          "kitty_widget_spec_with_z_index_field", "redraw_interrupted"]
 COMPONENTS = {
     "real": ["UrwidImageScreen (draw_screen, clear, clear_images, _start, _stop, "
              "_ti_clear_images)", "UrwidImage / UrwidImageCanvas", "KittyImage / ITerm2Image / "
@@ -399,7 +401,7 @@ def run(ch, ctx, fault=None):
                 op = ch.weighted("op", [
                     (10, "draw"), (3, "create"), (2, "drop"), (5, "layout"), (3, "scroll"),
                     (6, "grid_edit"), (3, "move_overlay"), (2, "resize"), (1, "clear"),
-                    (2, "clear_images"), (1, "stop_start"),
+                    (2, "clear_images"), (1, "stop_start"), (2, "draw_interrupted"),
                 ])
             desc = op
             if op == "draw":
@@ -460,6 +462,43 @@ def run(ch, ctx, fault=None):
                       {"layout": repr(layout)[:200]}, "draw")
                 redraws[0] += 1
                 ctx.probe("ghost_free_redraws")
+            elif op == "draw_interrupted":
+                # Ctrl-C lands inside a redraw and the application carries on with its loop
+                top = build(layout)
+                try:
+                    canvas = top.render((size[0], size[1]), focus=True)
+                except Exception as e:
+                    ctx.op("render failed in urwid: %r" % (e,))
+                    layout = {"kind": "pile", "items": []}
+                    continue
+                out.drain()
+                int_at = ch.int("int_at", 1, 6)
+                seen_w = [0]
+                real_write = out.write
+
+                def interrupting_write(text):
+                    # (the closing bracket itself is the redraw's clean-up: not interrupted)
+                    if text != "\x1b[?2026l":
+                        seen_w[0] += 1
+                        if seen_w[0] == int_at:
+                            raise KeyboardInterrupt
+                    return real_write(text)
+
+                out.write = interrupting_write
+                hit = False
+                try:
+                    screen.draw_screen((size[0], size[1]), canvas)
+                except KeyboardInterrupt:
+                    hit = True
+                    ctx.probe("redraw_interrupted")
+                finally:
+                    del out.write
+                out.drain()
+                check(not vt.synced, "synchronized_update_left_open_after_failure", {}, "draw")
+                desc = "draw_screen(%s) %s" % (layout["kind"], "interrupted by Ctrl-C" if hit
+                                               else "(completed)")
+                last_geo[0] = None
+                force_new[0] = True
             elif op == "create":
                 if len(pool) >= 6:
                     continue
